@@ -2,7 +2,7 @@
    instances of the generic theorems, non-vacuity examples and refutation witnesses. *)
 From Coq Require Import String List Bool Arith NArith.
 Import ListNotations.
-From ACH Require Import Pool PoolFacts PoolDisc PoolTable.
+From ACH Require Import Pool PoolFacts PoolDisc PoolTable OptsWrites.
 
 (* ---- the regenerated table passes every check ---- *)
 Lemma pool_users_ok : users_ok pool_users = true.
@@ -26,6 +26,13 @@ Proof. vm_compute. reflexivity. Qed.
 Lemma pool_table_checked :
   pool_table_ok pool_users pool_prims pool_save_ops pool_get_returns pool_new_returns pool_globals = true.
 Proof. vm_compute. reflexivity. Qed.
+
+(* a *ValidateOpts handed to the library is shared by the files a caller processes on different goroutines: in the
+   model it is a cell of the global part G, which a disciplined thread only reads (global_write_interferes shows a
+   write breaks non-interference).  Source table of this run: package ach assigns to no field of a ValidateOpts
+   other than a fresh local value, and never through a *ValidateOpts parameter or receiver. *)
+Lemma opts_read_only : opts_param_writes = [] /\ Nat.ltb 0 validate_opts_fields = true.
+Proof. vm_compute. split; reflexivity. Qed.
 
 (* ---- the library instance of the non-interference theorem ---- *)
 Lemma lib_threads_disciplined (Loc Glob : Type) fw fr (calls : list user) :
